@@ -76,6 +76,11 @@ def models(name):
         "spectator_boson": dict(modes=[a, b], H0=w * Na, H1=(a + Dagger(a)) * Dagger(b) ** 2 * b**2 + (a + Dagger(a)) * Nb),
         "spectator_fermion": dict(modes=[a, c], H0=w * Na + al * Na * Na, H1=(a + Dagger(a)) * Dagger(c) * c + a * a + Dagger(a) * Dagger(a)),
         "resonant_drives": dict(modes=[a, b], H0=w * Na + w * Nb, H1=a + Dagger(a) + b + Dagger(b)),
+        # Hermitian Hamiltonians whose coefficients are non-polynomial functions of number operators (parity, square root)
+        "parity_coupling": dict(modes=[a, c], H0=w * Na + ec * Dagger(c) * c, H1=(-1) ** NumberOperator(c) * (a + Dagger(a)), matrix_compare=False, as_expression=True),
+        "zero_block_2x2_fd": dict(modes=[a], H0=sympy.Matrix([[0, 0, 0], [0, 0, 0], [0, 0, w * Na + D]]),
+                                  H1=sympy.Matrix([[0, 1, a], [1, 0, sympy.I], [Dagger(a), -sympy.I, 0]]), blocks=[0, 0, 1], fd_blocks=(0,)),
+        "spectator_in_matrix": dict(modes=[a, b], H0=sympy.Matrix([[w * Na, 0], [0, w * Na + D]]), H1=sympy.Matrix([[0, b], [Dagger(b), 0]]), blocks=[0, 1]),
         "displaced_no_symbols": dict(modes=[a], H0=Na, H1=a + Dagger(a), no_symbols=True),
         "spin_no_symbols": dict(modes=[sm], H0=pauli.SigmaZ("s"), H1=pauli.SigmaX("s"), no_symbols=True),
         "matrix_no_symbols": dict(modes=[a], H0=sympy.Matrix([[Na, 0], [0, Na + sympy.Rational(5, 2)]]), H1=sympy.Matrix([[0, a], [Dagger(a), a + Dagger(a)]]), blocks=[0, 1], no_symbols=True),
@@ -149,8 +154,13 @@ def _run_library(m, max_order):
         kw["subspace_indices"] = m["blocks"]
     if m.get("fd") is not None:
         kw["fully_diagonalize"] = {0: m["fd"]} if m.get("blocks") is not None else m["fd"]
+    if m.get("fd_blocks") is not None:
+        kw["fully_diagonalize"] = tuple(m["fd_blocks"])
     if m.get("nonhermitian"):
         kw["hermitian"] = False
+    if m.get("as_expression"):
+        Ht, U, Ud = block_diagonalize(H0 + g * H1, symbols=[g], **kw)
+        return Ht, U, Ud
     if m.get("no_symbols"):
         # a single expression / matrix without the `symbols` argument: the only free symbol that is not an operator label is g
         Ht, U, Ud = block_diagonalize(H0 + g * H1, **kw)
@@ -247,7 +257,7 @@ def c07(cfg):
             layout = [m["H0"].shape[0]]
         N = sum(layout)
         lib = {name: [_elements(S, n, layout, scalar) for n in range(max_order + 1)] for name, S in (("Ht", Ht), ("U", U), ("Ud", Ud))}
-        if m.get("no_symbols"):
+        if m.get("no_symbols") or m.get("as_expression"):
             # expression input: every returned element carries its monomial g**n; set g = 1 (public substitution)
             gsym = sympy.Symbol("g", real=True)
             lib = {name: [[[0 if x == 0 else _expr_of(x).subs(gsym, 1) for x in row] for row in M] for M in mats] for name, mats in lib.items()}
@@ -512,7 +522,8 @@ def configs(tier):
              ("matrix_3x3_12", 2), ("matrix_3x3_21", 2), ("matrix_zero_block_first", 2), ("matrix_zero_block_last", 2),
              ("nonhermitian_drive", 2), ("nonhermitian_jc", 2), ("nonhermitian_fermions", 2),
              ("spectator_boson", 2), ("spectator_fermion", 2), ("resonant_drives", 3), ("spin_y_only", 3), ("spin_y_numeric", 3), ("boson_spin_numeric", 3),
-             ("displaced_no_symbols", 3), ("spin_no_symbols", 3), ("matrix_no_symbols", 2)]
+             ("displaced_no_symbols", 3), ("spin_no_symbols", 3), ("matrix_no_symbols", 2),
+             ("parity_coupling", 2), ("spectator_in_matrix", 2)]
     thorough = [("anharmonic3", 4), ("anharmonic4", 3), ("displaced", 4), ("kerr_drive", 3), ("two_bosons", 3), ("rabi", 4), ("jc_detuned", 3),
                 ("fermion_hop2", 4), ("fermion_pair3", 3), ("fermion_interaction", 3), ("holstein", 3), ("ladder_drive", 3),
                 ("mask_two_photon", 3), ("mask_one_photon", 2), ("matrix_2x2", 3), ("matrix_1block", 3),
@@ -522,7 +533,8 @@ def configs(tier):
                 ("matrix_3x3_12", 3), ("matrix_3x3_21", 3), ("matrix_zero_block_first", 3), ("matrix_zero_block_last", 2),
                 ("nonhermitian_drive", 3), ("nonhermitian_jc", 3), ("nonhermitian_fermions", 3),
                 ("spectator_boson", 3), ("spectator_fermion", 3), ("resonant_drives", 4), ("spin_y_only", 4), ("spin_y_numeric", 4), ("boson_spin_numeric", 3),
-                ("displaced_no_symbols", 4), ("spin_no_symbols", 4), ("matrix_no_symbols", 3)]
+                ("displaced_no_symbols", 4), ("spin_no_symbols", 4), ("matrix_no_symbols", 3),
+                ("parity_coupling", 3), ("spectator_in_matrix", 3)]
     for name, mo in quick if tier == "quick" else thorough:
         cfgs.append(dict(model=name, max_order=mo, _timeout_s=300 if tier == "quick" else 1500))
     # seeded random polynomial models (fixed seeds per tier: the encoding is regenerated, the set is stated)
